@@ -17,7 +17,7 @@ namespace {
 std::atomic<int> gInFlight{0};
 std::atomic<int> gMaxInFlight{0};
 
-uint64_t runOne(uint64_t seed, size_t steps, bool threaded, uint64_t jitterSeed)
+uint64_t runOne(uint64_t seed, size_t steps, bool threaded, uint64_t jitterSeed, int focus)
 {
     wl::State st;
     wl::DigestSink sink;
@@ -42,7 +42,7 @@ uint64_t runOne(uint64_t seed, size_t steps, bool threaded, uint64_t jitterSeed)
         wl::hooks() = &h;
     }
     for (size_t i = 0; i < steps; ++i)
-        wl::step(st, r, sink);
+        wl::step(st, r, sink, focus);
     wl::hooks() = nullptr;
     return sink.h ^ (sink.count << 1);
 }
@@ -82,6 +82,8 @@ void roundCase(Ctx& c, long idx)
 {
     const int T = threadsFor(c);
     const size_t steps = stepsFor(c);
+    // every other round concentrates all threads on one code path (encode+decode, decode, builders, TECMP, status, long reassembly)
+    const int focus = (idx % 2 == 1) ? static_cast<int>((idx / 2) % 6) : -1;
     std::vector<uint64_t> seeds, expected(static_cast<size_t>(T)), got(static_cast<size_t>(T));
     for (int t = 0; t < T; ++t)
         seeds.push_back(mix64(mix64(c.seed, static_cast<uint64_t>(idx)), static_cast<uint64_t>(t) + 1));
@@ -93,12 +95,12 @@ void roundCase(Ctx& c, long idx)
     for (int t = 0; t < T; ++t)
         th.emplace_back([&, t] {
             b.wait();
-            got[static_cast<size_t>(t)] = runOne(seeds[static_cast<size_t>(t)], steps, true, seeds[static_cast<size_t>(t)] ^ 0x77);
+            got[static_cast<size_t>(t)] = runOne(seeds[static_cast<size_t>(t)], steps, true, seeds[static_cast<size_t>(t)] ^ 0x77, focus);
         });
     for (auto& x : th)
         x.join();
     for (int t = 0; t < T; ++t)
-        expected[static_cast<size_t>(t)] = runOne(seeds[static_cast<size_t>(t)], steps, false, 0);
+        expected[static_cast<size_t>(t)] = runOne(seeds[static_cast<size_t>(t)], steps, false, 0, focus);
     int overlap = gMaxInFlight.load();
     for (int t = 0; t < T; ++t)
     {
@@ -114,6 +116,8 @@ void roundCase(Ctx& c, long idx)
             c.sig(seeds[static_cast<size_t>(t)]);
     }
     c.count("rounds");
+    if (focus >= 0)
+        c.feature("c19_focused_rounds", std::to_string(focus));
     c.count("thread_workloads", static_cast<uint64_t>(T));
     c.count("library_steps_concurrent", static_cast<uint64_t>(T) * steps);
     if (static_cast<uint64_t>(overlap) > c.counters["max_threads_simultaneously_inside_library"])
